@@ -199,8 +199,9 @@ public:
     constexpr range_t& operator-=(const range_t& o)
     {
         assert(!o.empty());
-        start -= o.last();
+        const T upper = o.last();  // `o` may be this range
         finish -= o.first();
+        start -= upper;
         return *this;
     }
 
